@@ -37,6 +37,9 @@ def encode_event(sim, ev, n=0):
         return rc.route_refresh(1, 1)
     if k == 'bad_marker':
         return b'\xff' * 15 + b'\x00' + b'\x00\x13\x04'
+    if k == 'bad_len' and len(ev) >= 3:
+        # ['bad_len', type, body octets]: length inside 19..4096 but below the minimum RFC 4271 6.1 sets for that type
+        return rc.frame(ev[1], b'\x00' * ev[2])
     if k == 'bad_len':
         return rc.MARKER + b'\x00\x12\x04'
     if k == 'bad_type':
@@ -315,7 +318,7 @@ def run_events(events, cfg=None, regime='single', stop_on_failure=True):
     d = Driver(cfg, regime=regime)
     for ev in events:
         en = d.enabled()
-        if list(ev) not in en and not (ev[0] == 'notif' and list(ev[:2]) in en):
+        if list(ev) not in en and not (ev[0] == 'notif' and list(ev[:2]) in en) and not (ev[0] == 'bad_len' and ['bad_len'] in en):
             d.failures.append(('harness:not-enabled', 'event %r not enabled after %r' % (ev, d.history)))
             break
         d.apply(list(ev))
